@@ -172,3 +172,20 @@ for dname, mkdest in (('Register.RESULT', lambda b: b.enum('bardolph.vm.vm_codes
         c.ensures('pushes-the-text-itself', "len(emitted(self)) == 1 and instr(emitted(self)[0], 'PUSHQ') and emitted(self)[0].param0 == _text")
     else:
         c.ensures('moves-the-text-itself', "len(emitted(self)) == 1 and instr(emitted(self)[0], 'MOVEQ') and emitted(self)[0].param0 == _text and same_dest(emitted(self)[0].param1, dest)")
+
+
+# ---- Parser._at_rvalue (the look-ahead that decides whether an optional value follows): decided by the token's CLASS;
+#      a token without text (end of file, a keyword) never starts a value, whatever names the script defines
+for tname, expect in (('EOF', 'result is False'), ('END', 'result is False'), ('PRINT', 'result is False'), ('AND', 'result is False'),
+                      ('LITERAL_STRING', 'result is True'), ('NUMBER', 'result is True'), ('REGISTER', 'result == include_reg')):
+    c = contract('bardolph/parser/parse.py', 'Parser._at_rvalue', serves=['C16', 'C06'], uses=('parser',), name='Parser._at_rvalue[%s]' % tname)
+    def _setup(b, case, tname=tname):
+        pr = PL.parser(b, first_token=PL.concrete_token(b.I, tname, 'hue' if tname == 'REGISTER' else None))
+        return {'self': pr, 'include_reg': b.sym('bool', 'include_reg')}
+    c.setup(_setup)
+    c.ensures('by-token-class', expect)
+    c.ensures('pure', "errs() == old(errs()) and tokens_consumed() == old(tokens_consumed()) and len(emitted(self)) == 0")
+for mark in '{[':
+    c = contract('bardolph/parser/parse.py', 'Parser._at_rvalue', serves=['C16', 'C06'], uses=('parser',), name="Parser._at_rvalue[MARK '%s']" % mark)
+    c.setup(lambda b, case, mark=mark: {'self': PL.parser(b, first_token=PL.concrete_token(b.I, 'MARK', mark)), 'include_reg': b.sym('bool', 'include_reg')})
+    c.ensures('opens-a-value', 'result is True')
